@@ -1,4 +1,5 @@
 import GB.C01.Adapter
+import GB.C01.Unary
 import GB.Generated.Facts
 /-
   C01 — forwarded calls deliver exactly the messages and final status exchanged.
@@ -101,6 +102,15 @@ theorem C01_halfclose (p : Params) (tr : List (Label M E)) (s : State M E) (h : 
   have g := h.ginv.half
   rw [h.half hcs, h.tracks.closeSend] at g
   exact g hh
+
+/-- Half-close of a unary-request method (unary and server-streaming calls): Forward itself calls
+    outgoing.CloseSend() after the one request and BEFORE it starts to read responses — in every run in which
+    outgoing.Recv has been called, CloseSend has been called. (The outgoing stream is always opened as a client
+    stream, so the target would otherwise never see the end of the request.) The driver applies exactly this
+    statement to every observed trace (`half-close-not-propagated`). -/
+theorem C01_halfclose_unary (p : Params) (tr : List (Label M E)) (s : State M E) (h : Run p tr s)
+    (hcs : p.cs = false) (hr : readsResponses tr = true) : closeSendCalled tr = true :=
+  unary_halfclose p tr s h hcs hr
 
 /-- …and the main loop can always take a waiting EOF and then calls CloseSend. -/
 theorem C01_halfclose_enabled (p : Params) (s : State M E) (hm : s.main = .loop) (hc : s.i2oCh = some .eof) :
